@@ -241,8 +241,7 @@ def showRoot' : Root' → Option String
       | .object .ConstantBuffer _ _ => "ConstantBuffer"
       | .object _ _ _ => "obj"
       | .plain _ => "plain"
-    let slot := fromCb || hasSlot (paramsFor .Msl false) g.toShape
-    some ("global:" ++ n ++ ":" ++ kind ++ ":" ++ (if slot then "slot" else "noslot"))
+    some ("global:" ++ n ++ ":" ++ kind ++ (if fromCb then ":slot" else ""))
   | .other => none
 
 open RsslVerif.Model.SimplifyCbuffers in
@@ -314,7 +313,7 @@ def handle (op : String) (args : List String) : String :=
   | "C18.simplify", [prog] => handleSimplify prog
   | "C18.annot", [on, prog, backend] =>
     let r := handleAnnot on prog
-    if backend == "backend=err" && (r.startsWith "P" || r == "none") then "back" else r
+    if backend == "backend=err" && r != "front" && r != "unsupported" then "back" else r
   | "C18.defines", [tgt] =>
     match parseTarget tgt with
     | some (t, _) => ";".intercalate ((targetDefines t).map fun d => d.1 ++ "=" ++ d.2)
